@@ -36,13 +36,60 @@ class Ref0:
         return F.Atom(spec[1])
 
     def file_present(self, j):
-        sp = self.uni.present_spec.get(j)
+        if self.uni.mode == 'prod':
+            return F.And(*[self._present1(part) for part in j.split(':::')])
+        return self._present1(j)
+
+    def _present1(self, name):
+        sp = self.uni.present_spec.get(name)
         if sp is None:
             return F.FALSE
         return F.Atom(sp)
 
+    def renamed_candidates(self, u, j):
+        """records `x!!!j` of historical upstreams x (not a current job) that share an output with u,
+        best overlap first -- the engine's rematching of multi-output jobs that changed their id"""
+        uni = self.uni
+        parts = set(u.split(':::'))
+        suffix = '!!!' + j
+        cands = []
+        for k in uni.hist_spec:
+            if k.endswith(suffix) and k != u + suffix:
+                x = k[:-len(suffix)]
+                if not x or '!!!' in x:
+                    continue
+                ov = len(parts & set(x.split(':::')))
+                if ov > 0:
+                    cands.append((ov, k))
+        cands.sort(key=lambda t: -t[0])
+        return cands
+
+    def edge_ok(self, u, j, cur_u):
+        """formula: the record of what j consumed from u exists and matches u's current output; None if the
+        renamed-upstream rematching is ambiguous (several historical names with the same overlap)"""
+        uni = self.uni
+        e = uni.hist_spec.get('%s!!!%s' % (u, j))
+        direct = F.FALSE
+        pe = F.FALSE
+        if e is not None:
+            pe = self.pres(e)
+            direct = F.And(pe, self.unaltered(rt.term_of(e[0]), cur_u))
+        cands = self.renamed_candidates(u, j)
+        if not cands:
+            return direct
+        if len(cands) > 1 and cands[0][0] == cands[1][0]:
+            return None
+        # fallback applies only when the direct record is absent; a lower-overlap candidate only when the better is absent
+        out = direct
+        absent_so_far = F.Not(pe)
+        for ov, k in cands:
+            sp = uni.hist_spec[k]
+            out = F.Or(out, F.And(absent_so_far, self.pres(sp), self.unaltered(rt.term_of(sp[0]), cur_u)))
+            absent_so_far = F.And(absent_so_far, F.Not(self.pres(sp)))
+        return out
+
     def uptodate(self, j, cur):
-        """cur: upstream id -> term of its current output"""
+        """cur: upstream id -> term of its current output.  None = not decidable by this oracle (ambiguous rematch)"""
         uni = self.uni
         own = uni.hist_spec.get(j)
         names = uni.hist_spec.get(j + '!!!')
@@ -50,11 +97,10 @@ class Ref0:
             return F.FALSE
         conj = [self.pres(own), self.pres(names), F.Eq(rt.term_of(names[0]), ('lit', uni.names(j)))]
         for u in uni.ups[j]:
-            e = uni.hist_spec.get('%s!!!%s' % (u, j))
-            if e is None:
-                return F.FALSE
-            conj.append(self.pres(e))
-            conj.append(self.unaltered(rt.term_of(e[0]), cur[u]))
+            f = self.edge_ok(u, j, cur[u])
+            if f is None:
+                return None
+            conj.append(f)
         if uni.kind[j] == 'Output':
             conj.append(self.file_present(j))
         return F.And(*conj)
@@ -179,15 +225,10 @@ class SafetyMonitor(Monitor):
             k = uni.kind[u]
             if k == 'Output':
                 if u not in okd:
-                    sp = uni.present_spec.get(u)
-                    if sp is None:
-                        ex.report('C02', 'job %s offered, Output upstream %s skipped but its result does not exist' % (j, u), st)
-                    elif sp is not True:
-                        v = st.pc.get(sp)
-                        if v is not True:
-                            ok, model = ex.z.valid_f(st.pc, st.fpc(), F.Atom(sp))
-                            if not ok:
-                                ex.report('C02', 'job %s offered, Output upstream %s skipped but its result is missing' % (j, u), st, model=model, extra_pc=[(sp, False)])
+                    f = Ref0(ex).file_present(u)
+                    ok, model = ex.z.valid_f(st.pc, st.fpc(), f)
+                    if not ok:
+                        ex.report('C02', 'job %s offered, Output upstream %s skipped but its result is missing' % (j, u), st, model=model)
             elif k == 'Ephemeral':
                 if u not in okd:
                     ex.report('C02', 'job %s offered, Ephemeral upstream %s (%s) was not executed in this evaluation' % (j, u, sn), st)
@@ -293,7 +334,7 @@ class OracleMonitor(Monitor):
                     ex.report('C16', 'changed-output error raised for ephemeral %s that was %s, not validated' % (e, vs), ns)
                 else:
                     cur = self.cur_terms(st)
-                    self.oblige(ns, 'C16', self.ref.uptodate(e, cur),
+                    self.oblige(ns, 'C16', self.ref.uptodate(e, cur) or F.TRUE,
                                 'changed-output error raised for ephemeral %s whose inputs had changed / which is not up to date' % e)
                     if own is not None:
                         self.oblige(ns, 'C16', F.Not(self.ref.unaltered(rt.term_of(own[0]), o)),
@@ -345,13 +386,24 @@ class OracleMonitor(Monitor):
             if uni.exempt[j] or j in dv.started:
                 continue
             if state[j] == 'FinishedSkipped':
-                self.oblige(st, 'C03', self.ref.uptodate(j, cur), 'job %s was skipped although it is not up to date' % j)
+                f = self.ref.uptodate(j, cur)
+                if f is not None:
+                    self.oblige(st, 'C03', f, 'job %s was skipped although it is not up to date' % j)
         # ---------------- C04 (local formulation: each job judged against what its upstreams actually did)
         need = {}
+        ambiguous = set()
         for j in uni.ids:
             if uni.exempt[j]:
                 continue
-            need[j] = F.TRUE if uni.kind[j] == 'Always' else F.Not(self.ref.uptodate(j, cur))
+            if uni.kind[j] == 'Always':
+                need[j] = F.TRUE
+            else:
+                f = self.ref.uptodate(j, cur)
+                if f is None:
+                    ambiguous.add(j)
+                    need[j] = F.TRUE
+                else:
+                    need[j] = F.Not(f)
         needed_tr = {}
         for j in reversed(uni.topo_order()):
             if uni.exempt[j]:
@@ -366,6 +418,8 @@ class OracleMonitor(Monitor):
             if uni.exempt[j]:
                 if started:
                     ex.report('C04', 'ephemeral %s that nobody can need was executed' % j, st)
+                continue
+            if j in ambiguous:
                 continue
             if not faulty:
                 exp = need[j]
@@ -395,7 +449,7 @@ class OracleMonitor(Monitor):
                 for j in uni.topo_order():
                     anc_failed[j] = any((u in dv.failed) or anc_failed[u] for u in uni.ups[j])
                 for j in uni.ids:
-                    if uni.kind[j] == 'Ephemeral' or anc_failed[j] or j in dv.failed:
+                    if uni.kind[j] == 'Ephemeral' or anc_failed[j] or j in dv.failed or j in ambiguous:
                         continue
                     started = j in dv.started
                     self.oblige(st, 'C07', need[j] if started else F.Not(need[j]),
@@ -509,17 +563,18 @@ class OracleMonitor(Monitor):
             ex.report('C18', 'returned history has record %r that neither was in the input history nor describes the current graph' % k, st)
         for k, (v, p) in uni.hist_spec.items():
             a, sep, b = k.partition('!!!')
-            jobs_in_key = [a] + ([b] if (sep and b) else [])
-            absent = [x for x in jobs_in_key if x not in ids]
-            if absent:
-                if any(superseded(x) for x in absent):
-                    pe, ve = h_entry(h1, k)
-                    if pe is not False:
-                        self.oblige(st, 'C18', F.Not(F.Atom(pe)), 'record %r of a superseded multi-output job is returned' % k)
-                else:
-                    if not self.entries_identical(st, h_entry(h1, k), (p, v)):
-                        ex.report('C18', 'record %r of an absent job was not returned unchanged' % k, st)
-            elif sep and b and (a, b) not in edges:
+            is_edge = bool(sep and b)
+            if a not in ids and superseded(a):
+                # own records and what-it-fed records of a job whose outputs another (renamed) job now produces
+                pe, ve = h_entry(h1, k)
+                if pe is not False:
+                    self.oblige(st, 'C18', F.Not(F.Atom(pe)), 'record %r of a superseded multi-output job is returned' % k)
+            elif a not in ids or (is_edge and b not in ids):
+                if is_edge and b not in ids and superseded(b):
+                    continue        # what a superseded job consumed: not specified either way
+                if not self.entries_identical(st, h_entry(h1, k), (p, v)):
+                    ex.report('C18', 'record %r of an absent job was not returned unchanged' % k, st)
+            elif is_edge and (a, b) not in edges:
                 pe, ve = h_entry(h1, k)
                 if pe is not False:
                     self.oblige(st, 'C18', F.Not(F.Atom(pe)), 'record %r between two present jobs that no longer depend on each other is returned' % k)
